@@ -139,10 +139,11 @@ fn raft_loop_step(role: &mut Role, ctx: &RaftContext<T>, cmd: ClientCmd) -> Stri
     out
 }
 
-fn exec(case: &str) -> String {
+fn exec_with(case: &str, lease_probe: Option<bool>) -> String {
     let f = fields(case);
     let g = |k: &str| f.get(k).cloned().unwrap_or_default();
-    let (role_s, def_s, ovr, cli, path, lease) = (g("role"), g("def"), g("ovr") == "1", g("cli"), g("path"), g("lease") == "1");
+    let (role_s, def_s, ovr, cli, path, lease) =
+        (g("role"), g("def"), g("ovr") == "1", g("cli"), g("path"), lease_probe.unwrap_or(g("lease") == "1"));
     let dflt = match pol(&def_s) {
         Some(p) => p,
         None => return "bad-case".into(),
@@ -211,7 +212,7 @@ fn exec(case: &str) -> String {
                             None => return "n/a".to_string(),
                         };
                         let (event_tx, _event_rx) = mpsc::channel(4);
-                        let client = Node::<T>::verif_embedded_client(event_tx, cmd_tx.clone(), sm_arc.clone(), lease_arc.clone(), 7, Duration::from_millis(2_000));
+                        let client = Node::<T>::verif_embedded_client_cfg(event_tx, cmd_tx.clone(), sm_arc.clone(), lease_arc.clone(), 7, Duration::from_millis(2_000), cfg.raft.read_consistency.default_policy.clone(), ovr);
                         match client.get_multi_with_consistency(&keys, p).await {
                             Ok(_) => "ok".to_string(),
                             Err(_) => "err".to_string(),
@@ -241,10 +242,9 @@ fn exec(case: &str) -> String {
                     Some(o) => o,
                     None => {
                         if api_out == "ok" {
-                            match cli_pol {
-                                Some(p) => format!("fast:local-{}", pol_name(&p)),
-                                None => "fast:local-nopolicy".into(),
-                            }
+                            // answered without a command reaching the Raft loop; which policy it was served
+                            // under is determined by the probe in `exec`
+                            "fast:local".into()
                         } else {
                             format!("fast:{}", api_out)
                         }
@@ -254,6 +254,20 @@ fn exec(case: &str) -> String {
             _ => "bad-case".into(),
         }
     })
+}
+
+/// A fast-path answer is classified by observation: an eventual read is served locally whatever the lease, a lease
+/// read only under a valid lease — so the same case is replayed with the lease revoked.
+fn exec(case: &str) -> String {
+    let o = exec_with(case, None);
+    if o != "fast:local" {
+        return o;
+    }
+    let lease = fields(case).get("lease").map(|s| s == "1").unwrap_or(false);
+    if !lease {
+        return "fast:local-ev".into();
+    }
+    if exec_with(case, Some(false)) == "fast:local" { "fast:local-ev".into() } else { "fast:local-lease".into() }
 }
 
 /// The whole product is enumerated on every run (720 cases); `n` and the seed only decide the order.
